@@ -211,6 +211,7 @@ PROPS = {
         'mc_quick': [(c, 300, 'FBConcMC.tla') for c in ('Conc_A.cfg', 'Conc_B.cfg', 'Conc_C.cfg', 'Conc_D.cfg',
                                                          'Conc_Ds.cfg', 'Conc_E.cfg')]
         + [('Backup_q.cfg', 300, 'FBBackup.tla'), ('Hash.cfg', 300, 'FBHash.tla')], 'sim': None,
+        'apalache': ('FBSlotApa.tla', 'Init', 'IndInv', 'SlotsDistinct'),     # thorough tier only
         'title': 'Thread safety',
         'thread_units': (150, 1500, 10, 0, 3, 12),   # base histories q/t, single preemptions per par q/t (0 = all), pairs q/t
         'full_pairs': (12, 150),                     # two-thread histories whose (k1, k2) preemption pairs are all enumerated
